@@ -287,8 +287,9 @@ theorem noConversion_ok (tgt : Ty) (s : List Nat) (d : Bool) (o : Option Nat) (n
     (h : noConversion s = .ok (o, n)) : TextOK tgt s d o n := by
   unfold noConversion at h
   split at h
-  · simp at h; obtain ⟨rfl, rfl⟩ := h
-    exact ⟨by simp, Or.inl ⟨rfl, by simp⟩⟩
+  · rename_i hall
+    simp at h; obtain ⟨rfl, rfl⟩ := h
+    exact ⟨by simp, Or.inl ⟨rfl, rfl, hall⟩⟩
   · simp at h
 
 theorem strtoimax_range (s : List Nat) (base : Nat) :
@@ -503,7 +504,7 @@ theorem runParser_sound (p : TextParser) (vlen : Nat) (tgt : Ty) (s : List Nat) 
   · subst hs0
     refine ⟨by simp [verdict], ?_, by simp [dropValue]⟩
     intro o n h; simp at h; obtain ⟨rfl, rfl⟩ := h
-    exact ⟨by simp, Or.inl ⟨rfl, by simp⟩⟩
+    exact ⟨by simp, Or.inl ⟨rfl, rfl, by simp⟩⟩
   simp only [hs0, if_false, hr]
   by_cases hc0 : r.consumed = 0
   · simp only [hc0, if_true]
@@ -598,23 +599,29 @@ theorem convertString_ok (tgt : Ty) (s : List Nat) (d : Bool) (o : Option Nat) (
     (h : convertString tgt s d = .ok (o, n)) : TextOK tgt s d o n := by
   unfold convertString at h
   split at h
-  · simp at h; obtain ⟨rfl, rfl⟩ := h
-    exact ⟨by simp, Or.inl ⟨rfl, by simp⟩⟩
+  · rename_i hs; subst hs
+    simp at h; obtain ⟨rfl, rfl⟩ := h
+    exact ⟨by simp, Or.inl ⟨rfl, rfl, by simp⟩⟩
   split at h
   · rename_i o' k hk
     split at h
-    · simp at h; obtain ⟨rfl, rfl⟩ := h
-      exact ⟨by simp, Or.inl ⟨rfl, by simp⟩⟩
+    · rename_i hk0
+      simp at h; obtain ⟨rfl, rfl⟩ := h
+      subst hk0
+      refine ⟨by simp, Or.inl ⟨rfl, rfl, ?_⟩⟩
+      obtain ⟨_, hcase⟩ := hnum _ o' 0 hk
+      rcases hcase with ⟨_, _, hall⟩ | ⟨v, hnum', _⟩
+      · rw [← List.takeWhile_append_dropWhile (p := isSpace) (l := s), List.all_append, all_takeWhile, hall]; rfl
+      · simp [numeral, signedMagnitude] at hnum'
     · simp only [Res.ok.injEq, Prod.mk.injEq] at h
       obtain ⟨rfl, rfl⟩ := h
       obtain ⟨hle, hcase⟩ := hnum _ o' k hk
       have hl : (s.takeWhile isSpace).length + (s.dropWhile isSpace).length = s.length := by
         rw [← List.length_append, List.takeWhile_append_dropWhile]
       refine ⟨by omega, ?_⟩
-      rcases hcase with ⟨hnone, hblank⟩ | ⟨v, hnum', hin, hval⟩
-      · left
-        refine ⟨hnone, ?_⟩
-        rw [take_ws_add, List.all_append, all_takeWhile, hblank]; rfl
+      rcases hcase with ⟨hnone, hk0, hblank⟩ | ⟨v, hnum', hin, hval⟩
+      · rename_i hkne
+        exact absurd hk0 hkne
       · right
         refine ⟨v, ?_, hin, hval⟩
         rw [numeral_take]
